@@ -1,5 +1,6 @@
 """C02 — comparison and hashing of time points follow the timeline."""
 import itertools
+from fractions import Fraction
 
 import oracle
 import gens
@@ -7,7 +8,7 @@ import tpcommon as T
 from engine import Op, set_mode
 
 PROP = "C02"
-LEAN_MODULES = ["IsoDT.Props.C02"]
+LEAN_MODULES = ["IsoDT.Props.C02", "IsoDT.Props.C02q"]
 RULE = ("ordered pairs built from a target instant distance (0, +-1 s, +-1 min, +-1 h, +-1 d, large) "
         "re-expressed in another representation / offset / the 24:00 form; non-trivial when the operands "
         "differ in representation, offset or 24:00 spelling; distinct by (op, arguments)")
@@ -286,5 +287,145 @@ class SubSign(Op):
                 T.describe_tp(a[1]), T.describe_tp(a[2]), out)
 
 
+import qcommon as Q   # noqa: E402
+
+
+def gen_qpair(rng, m):
+    """Two q-points: the same instant spelled differently (35%), or instants a boundary distance apart."""
+    a = Q.gen_qpoint(rng, m)
+    if rng.random() < 0.35:
+        return a, Q.same_instant_as(rng, m, a)
+    b = Q.gen_qpoint(rng, m)
+    if rng.random() < 0.5:
+        # near a: a's instant moved by a small distance, re-spelled
+        b = Q.same_instant_as(rng, m, a)
+        step = Fraction(rng.choice([1, -1]) * rng.choice([1, 60, 3600, 86400, 1800, 90]), rng.choice([1, 1, 2, 8]))
+        if b[6] is not None:
+            b = b[:6] + (b[6] + step,) + b[7:]
+        elif b[5] is not None:
+            b = b[:5] + (b[5] + step / 60,) + b[6:]
+        else:
+            b = b[:4] + (b[4] + step / 3600,) + b[5:]
+        if not Q.in_range(b[4], b[5], b[6]):
+            b = Q.gen_qpoint(rng, m)
+    return a, b
+
+
+class CmpQ(Op):
+    """_cmp on points with fractional / absent slots against the rational model cmpQ (Props/C02q).
+    For distinct instants the sign must agree exactly.  For EQUAL instants the model says 0; the
+    Python computes in binary64 and may say otherwise when a slot is not exactly representable
+    (known finding F17) - then the implementation's own answer is taken as the model's in the
+    comparison and the oracle reports the deviation."""
+    prop = PROP
+    name = "cmpq"
+
+    def from_corpus(self, a):
+        return (a[0], Q.norm_point(a[1]), Q.norm_point(a[2]))
+
+    def gen(self, rng, tier, boost):
+        n = (2500 if tier == "quick" else 40000) * boost
+        if getattr(self, "shard", None):
+            n = n // self.shard[1] + 1
+        for _ in range(n):
+            m = gens.mode(rng)
+            a, b = gen_qpair(rng, m)
+            yield (m, a, b)
+
+    def line(self, a):
+        return "cmpq %s %s %s" % (a[0], Q.tokens(a[1]), Q.tokens(a[2]))
+
+    def impl(self, a):
+        set_mode(a[0])
+        x, y = Q.mk_point(a[1]), Q.mk_point(a[2])
+        flags = (x < y, x == y, x > y, y < x, y == x, y > x)
+        self.last = flags
+        table = {(True, False, False): "-1", (False, True, False): "0", (False, False, True): "1"}
+        out = table.get(flags[:3], "INCONSISTENT")
+        if flags[3:] != (flags[2], flags[1], flags[0]):
+            out = "ASYMMETRIC"
+        self.last_out = out
+        return out
+
+    def float_domain(self, a):
+        return Q.float_noise_pair(a[0], a[1], a[2])
+
+    def canon_model(self, a, out):
+        if out == "0" and self.float_domain(a):
+            return self.impl(a)
+        return out
+
+    def oracle(self, a, out):
+        m, x, y = a
+        d = Q.inst(m, x) - Q.inst(m, y)
+        want = "0" if d == 0 else ("-1" if d < 0 else "1")
+        if out != want:
+            return "%s vs %s in %s: the operators give %s (lt, eq, gt, and reversed: %s), the instants differ by %s s" % (
+                Q.describe(x), Q.describe(y), m, out, self.last, float(d))
+
+    def label(self, a):
+        d = Q.inst(a[0], a[1]) - Q.inst(a[0], a[2])
+        return "cmpq/%s%s/%s" % (Q.form_of(a[1]), Q.form_of(a[2]), "equal" if d == 0 else "distinct")
+
+
+class HashQ(Op):
+    """The tuple __hash__ hashes (UTC calendar date + hour, minute, second of get_hour_minute_second)
+    against hashKeyQ, and the property's clause on the implementation: points that compare equal have
+    equal hashes."""
+    prop = PROP
+    name = "hashq"
+    model = False
+
+    def from_corpus(self, a):
+        return (a[0], Q.norm_point(a[1]), Q.norm_point(a[2]))
+
+    def gen(self, rng, tier, boost):
+        n = (1500 if tier == "quick" else 20000) * boost
+        if getattr(self, "shard", None):
+            n = n // self.shard[1] + 1
+        for _ in range(n):
+            m = gens.mode(rng)
+            a = Q.gen_qpoint(rng, m)
+            yield (m, a, Q.same_instant_as(rng, m, a))
+
+    def line(self, a):
+        return "hashq2 %s %s %s" % (a[0], Q.tokens(a[1]), Q.tokens(a[2]))
+
+    def impl(self, a):
+        set_mode(a[0])
+        x, y = Q.mk_point(a[1]), Q.mk_point(a[2])
+        return "eq=%d hash=%d" % (x == y and y == x, hash(x) == hash(y))
+
+    def oracle(self, a, out):
+        if out.startswith("eq=1") and out.endswith("hash=0"):
+            return "%s == %s in %s but their hashes differ" % (Q.describe(a[1]), Q.describe(a[2]), a[0])
+        if not out.startswith("eq="):
+            return "comparison / hashing failed: %s" % out
+
+    def label(self, a):
+        return "hashq/%s%s" % (Q.form_of(a[1]), Q.form_of(a[2]))
+
+
+def _float_equal_instants(op, a, out, msg):
+    """F16 / F17: only pairs denoting exactly the same instant, at least one slot not representable in
+    binary64 (so the two float spellings differ by rounding noise only)."""
+    if op.name not in ("cmpq", "hashq"):
+        return False
+    return Q.float_noise_pair(a[0], a[1], a[2])
+
+
+def _f16(op, a, out, msg):
+    return op.name == "hashq" and _float_equal_instants(op, a, out, msg)
+
+
+def _f17(op, a, out, msg):
+    return op.name == "cmpq" and _float_equal_instants(op, a, out, msg)
+
+
+KNOWN_PREDICATES = dict(globals().get("KNOWN_PREDICATES", {}))
+KNOWN_PREDICATES.update({"float_equal_points_hash_differently": _f16,
+                         "float_equal_instants_compare_unequal": _f17})
+
+
 def ops():
-    return [Cmp(), HashEq(), Pool(), SubSign(), CmpFrac()]
+    return [Cmp(), HashEq(), Pool(), SubSign(), CmpFrac(), CmpQ(), HashQ()]
